@@ -4,6 +4,11 @@ import json, os, sys
 HERE = os.path.dirname(os.path.dirname(os.path.abspath(__file__)))
 
 CHECKS = {
+ "C17": dict(
+   technique="generator-knows-the-answer property-based testing: documents built from element lists (exhaustive <=2/3 elements + Hypothesis), differential str vs bytes, reference filter pipeline for links",
+   text="Every document of <=2 elements over a ~110-element pool (anchors in three quoting styles with attributes, ASCII / non-ASCII separators, look-alike script tags, entities, every href kind) and random documents up to 8 elements; urls_from_html(str) == urls_from_html(utf-8 bytes) == the generator's expected href list; links_from_html compared as a list with a reference pipeline and checked for the stated post-conditions under all 8 option sets x 5 base URLs.",
+   note="Trusted base: the document renderer (HTML whitespace = space/tab/LF/FF/CR); stdlib html.unescape and urljoin; ural's is_url / canonicalize_url inside the reference pipeline (covered by C16 / C01-C02).",
+   design="§4 C17"),
  "C19": dict(
    technique="bounded-exhaustive enumeration of route paths per platform + Hypothesis arbitrary token strings; totality with exception bucketing, validator checks and round trip through the generated canonical URL",
    text="Per platform every path of 0-3 segments over the full route vocabulary and 4 (quick) / 4-5 (thorough) over a reduced one, crossed with hosts, query panels, fragment routing, trailing slash and options; well-formed seed URLs; arbitrary strings through every public function of the six modules. Any exception other than the documented TypeError of convert_* is a violation bucketed by innermost ural frame; record ids must satisfy the module's validators; parse(record.url) == record, parse(normalize_youtube_url(u)) == parse(u), normalize idempotent.",
